@@ -1177,6 +1177,11 @@ fn c08(_tier: &str, seed: u64) -> Report {
     wide::<masked::iupac::Iupac, 25, u128>(&mut rep, &mut rng);
     wide::<text::Dna, 9, u128>(&mut rep, &mut rng);
     wide::<text::Dna, 16, u128>(&mut rep, &mut rng);
+    // the 1-bit codec is the only one whose k-mers can exceed 64 symbols
+    wide::<degenerate::dna::Dna, 64, u64>(&mut rep, &mut rng);
+    wide::<degenerate::dna::Dna, 65, u128>(&mut rep, &mut rng);
+    wide::<degenerate::dna::Dna, 100, u128>(&mut rep, &mut rng);
+    wide::<degenerate::dna::Dna, 128, u128>(&mut rep, &mut rng);
     rep
 }
 
